@@ -82,8 +82,15 @@ const REFS = {
   bad_base64: { url: () => 'data:application/json;base64,@@@=', usable: false, readsAllowed: true },
   no_comment: { url: null, usable: false },
   block_form: { url: () => 'gen.js.map', path: '/p/dir/gen.js.map', answer: 'map', usable: true, block: true },
-  two_comments: { url: () => 'gen.js.map', path: '/p/dir/gen.js.map', answer: 'map', usable: true, two: true }
+  two_comments: { url: () => 'gen.js.map', path: '/p/dir/gen.js.map', answer: 'map', usable: true, two: true },
+  // the LAST comment is the effective one: an earlier usable comment must not leak through an unusable last one
+  first_usable_last_missing: { url: () => 'gen.js.map', path: '/p/dir/gen.js.map', answer: 'notfound', usable: false, before: 'inline' },
+  first_usable_last_bad_b64: { url: () => 'data:application/json;base64,@@@=', usable: false, readsAllowed: true, before: 'inline' },
+  first_usable_last_index_map: { url: () => 'gen.js.map', path: '/p/dir/gen.js.map', answer: 'index', usable: false, before: 'inline' },
+  first_wrong_last_usable: { url: () => 'gen.js.map', path: '/p/dir/gen.js.map', answer: 'map', usable: true, before: 'wrong' },
+  mid_usable_last_missing: { url: () => 'gen.js.map', path: '/p/dir/gen.js.map', answer: 'notfound', usable: false, two: 'inline' }
 }
+const WRONG_MAP = JSON.stringify(SM.encodeMap({ sources: ['WRONG.ts'], names: [], segments: [{ gl: 0, gc: 0, src: 0, ol: 99, oc: 9 }, { gl: 1, gc: 0, src: 0, ol: 98, oc: 8 }] }))
 
 function refComment (ref, mapText) {
   if (!ref.url) return ''
@@ -96,16 +103,19 @@ function makeLeafInput (pick) {
   const shape = MAP_SHAPES[pick.shape]
   const urlForLook = ref.url ? (ref.url('{}').length > 60 ? 'gen.js.map' : ref.url('{}')) : 'gen.js.map'
   let body = LOOKALIKES[pick.look](ref.url && !/^data:/.test(ref.url('{}')) ? ref.url('{}') : urlForLook) + PROGRAMS[pick.prog]
-  if (ref.two) body = body.replace('\n', ' //# sourceMappingURL=other.js.map\n')
+  if (ref.two === true) body = body.replace('\n', ' //# sourceMappingURL=other.js.map\n')
+  if (ref.two === 'inline') body = body.replace('\n', ' //# sourceMappingURL=data:application/json;base64,' + b64(WRONG_MAP) + '\n')
   const mapObj = buildOriginalMap(body, shape)
   const mapText = JSON.stringify(mapObj)
-  const comment = refComment(ref, mapText)
+  let comment = refComment(ref, mapText)
+  // a superseded comment on the line just before the effective one (both trail the last token)
+  if (ref.before) comment = '//# sourceMappingURL=data:application/json;base64,' + b64(ref.before === 'wrong' ? WRONG_MAP : mapText) + '\n' + comment
   const code = body + comment
   const vfs = {}
   if (ref.path) {
     const answers = { map: { kind: 'text', text: mapText }, notfound: { kind: 'notfound' }, isdir: { kind: 'isdir' }, denied: { kind: 'denied' }, empty: { kind: 'text', text: '' }, malformed: { kind: 'text', text: mapText.slice(0, mapText.length / 2) }, notamap: { kind: 'text', text: '{"hello":1}' }, index: { kind: 'text', text: JSON.stringify({ version: 3, sections: [{ offset: { line: 0, column: 0 }, map: mapObj }] }) } }
     vfs[ref.path] = answers[ref.answer]
-    if (ref.two) vfs['/p/dir/other.js.map'] = { kind: 'text', text: JSON.stringify(SM.encodeMap({ sources: ['WRONG.ts'], names: [], segments: [{ gl: 0, gc: 0, src: 0, ol: 99, oc: 9 }] })) }
+    if (ref.two) vfs['/p/dir/other.js.map'] = { kind: 'text', text: WRONG_MAP }
   }
   return { code, body, comment, mapObj, vfs, ref }
 }
@@ -209,12 +219,12 @@ async function check (leaf, resps) {
   if (!inp.ref.path && !inp.ref.readsAllowed && (r.reads || []).length) v('reader-unexpected-read', 'read', `reader asked for ${JSON.stringify(r.reads)} although the reference is inline / absent`)
   // --- nothing else of the program is altered ---
   const body = stripTrailer(r.content); const ref = stripTrailer(rNoRef.content)
-  if (!inp.ref.two && normRemnants(body) !== normRemnants(ref)) {
+  if (!inp.ref.two && !inp.ref.before && normRemnants(body) !== normRemnants(ref)) {
     const a = normRemnants(body); const b = normRemnants(ref); let i = 0; while (i < a.length && a[i] === b[i]) i++
     v('program-text-altered', pick.look === 'none' ? 'plain' : 'lookalike:' + pick.look, `content (minus trailer and removed comment) differs from the content of the same program without the reference comment at char ${i}: …${JSON.stringify(a.slice(Math.max(0, i - 40), i + 60))} vs …${JSON.stringify(b.slice(Math.max(0, i - 40), i + 60))}`)
   }
   // with comments kept, the superseded end-of-file comment must be gone
-  if (pick.comments && inp.ref.url && !inp.ref.two) {
+  if (pick.comments && inp.ref.url && !inp.ref.two && !inp.ref.before) {
     const old = inp.comment.trim().replace(/^\/\/|^\/\*|\*\/$/g, '').trim()
     if (body.includes(old) && !LOOKALIKES[pick.look]('x').length) v('old-comment-survives', inp.ref.block ? 'block' : 'line', 'the superseded sourceMappingURL comment is still present in the content')
   }
